@@ -12,6 +12,7 @@ int gh_last_code;          /* code delivered by the most recent read_token call 
 int gh_adds;               /* 1 once tok_add has been called */
 int gh_last_added; void *gh_last_attr;   /* arguments of the most recent tok_add call */
 const char *gh_buf; size_t gh_n; int gh_ln0; size_t gh_off0;   /* description text, its size including the NUL, line number and cursor offset at entry */
+size_t gh_w; unsigned long gh_word0;   /* ghost word index / word value before the call (UB.tset) */
 /* yaep_read_grammar, first region (RG.prefix) */
 struct grammar;
 struct grammar *gh_g;          /* the object the API call was given */
